@@ -84,7 +84,7 @@ impl SubRule {
         // RuleType::Metathesis    => {/* skip calc output */},
         // RuleType::Deletion      => {/* skip calc output */},
         // RuleType::Insertion     => {/* skip match input */},
-        #[cfg(feature = "verif")] crate::verif::enter_subrule(self.rule_type as u32);
+        #[cfg(feature = "verif")] crate::verif::enter_subrule(self.rule_type as u32, &word);
 
         if self.rule_type == RuleType::Insertion {
             return self.transform(&word, vec![], &mut None)
@@ -94,7 +94,7 @@ impl SubRule {
         let mut cur_index = SegPos::new(0, 0);
         // TODO(girv): `$ > *` or any broad deletion rule without context/exception should  give a warning to the user
         loop {
-            #[cfg(feature = "verif")] crate::verif::tick(100);
+            #[cfg(feature = "verif")] crate::verif::tick_growth(100, &word);
             self.alphas.borrow_mut().clear();
             self.variables.borrow_mut().clear();
             let (res, mut next_index) = self.input_match_at(&word, cur_index)?;
@@ -791,7 +791,7 @@ impl SubRule {
 
                 let mut pos = SegPos::new(0, 0);
                 while res_word.in_bounds(pos) {
-                    #[cfg(feature = "verif")] crate::verif::tick(113);
+                    #[cfg(feature = "verif")] crate::verif::tick_growth(113, &res_word);
                     self.alphas.borrow_mut().clear();
                     self.variables.borrow_mut().clear();
                     match self.insertion_match(&res_word, pos)? {
